@@ -5,6 +5,13 @@ import json, os, subprocess
 HERE = os.path.dirname(os.path.dirname(os.path.abspath(__file__)))
 
 CHECKS = {
+    "C01": dict(
+        category="exploration",
+        technique="deterministic simulation of REPL sessions: seeded session histories (definitions, redefinitions, expressions) checked form by form against an executable reference CEK machine, with a fresh-VM twin under a permuted closure-slot order and inserted unrelated definitions",
+        text="Seeded search over session histories of a typed program generator covering every core and derived form of the statement; each form's value, failure, user-error payload and output events are compared with an independent reference machine, and a fresh VM with another closure-slot order (the compiler's hash-set iteration order is behind hook H4) and unrelated definitions must observe the same. Collection schedules and slicing are composed on a fraction of runs. Sampling, not proof.",
+        note="Trusted: the reference machine and the generator's well-definedness rules (unspecified values compare as wildcards; a run whose control flow depends on one is discarded and counted); operator evaluated after operands as the implementation does.",
+        design="§5 C01, §4.1",
+    ),
     "C03": dict(
         category="exploration",
         technique="deterministic simulation: seeded search over collection schedules at VM instruction boundaries, differential twin with collections suppressed, independent heap audit after every collection",
